@@ -46,9 +46,17 @@ def f8_predicate(case):
 
 
 def judge(case):
-    """list of (tag, message)"""
+    """list of (tag, message): the grid is judged with its factor and then - same names, same process - with a second
+    factor, as a scan over the metric factor would build it."""
+    out = judge_one(case, float(case["factor"]))
+    if not out and case.get("factor2") is not None:
+        out = [(tag, f"[second grid with the same names, factor {case['factor2']}] " + msg)
+               for tag, msg in judge_one(case, float(case["factor2"]))]
+    return out
+
+
+def judge_one(case, f):
     b, o, t = names(case)
-    f = float(case["factor"])
     n_b, n_o, n_t = case["n_b"], case["n_o"], len(case["radii"])
     n = n_b * n_o * n_t
     out = []
@@ -152,9 +160,10 @@ def _shard(arg):
         radii = [f"{v / scale:.{digits}f}" for v in np.cumsum(incs)]
         cart = draw(st.booleans()) and n_o >= 3
         f = draw(st.sampled_from([1.0, 2.0, 2.0, 0.25, 0.5, 1.5, 3.0, 4.0, 0.7310585786, 1e-3, 1e-4, 1e3, 37.5]))
+        f2 = draw(st.sampled_from([None, None, 1.0, 3.0, 0.125]))
         return {"b_alg": draw(st.sampled_from(["cube4D", "randomQ"])), "n_b": n_b,
                 "o_alg": draw(st.sampled_from(["ico", "cube3D", "randomS"])), "n_o": n_o, "radii": radii,
-                "factor": f, "cartesian": cart}
+                "factor": f, "factor2": f2 if f2 != f else None, "cartesian": cart}
 
     def builder(res, fail):
         @given(cases())
